@@ -79,7 +79,7 @@ def run(rep, tier, seed, budget):
             res = driver.explore_parallel(ring_level(RINGS[n]), left * 0.5, on_budget=on_budget, max_decisions=2000)
             rep.add_part(name, res, {"template": RINGS[n], "flags": "strict, attribute free"})
             continue
-        alts = ench.SMI_CHARS if kind == "chr" else (ench.SMI_TOKENS if kind == "tok" else
+        alts = (ench.SMI_CHARS if (n < 3 or not quick) else ench.SMI_CHARS_Q) if kind == "chr" else (ench.SMI_TOKENS if kind == "tok" else
                                                     ["C", "N", "c", "n", "[nH]", "[O-]", "=C", ":c", ":C", "(", ")", "1", "=1", "%10", ".", "%1"])
         name = ("M-CHR N=%d: all strings over %d characters" if kind == "chr"
                 else "M-SMI N=%d: all strings over %d SMILES tokens") % (n, len(alts))
